@@ -223,6 +223,12 @@ func (j *nestedjoinmerge[T]) handleCollectionUpdate(e Event[Collection[T]]) {
 			// merged is guaranteed to be non-nil since newCollectionValue is a part of
 			// j's collection of collections.
 			merged := j.calculateMerged(string(key))
+			if merged == nil {
+				// The collection was removed from our collections after this update was queued, so nothing
+				// holds the key any more. The delete event of the collection recalculates all of its keys.
+				delete(oldItemsMap, key)
+				continue
+			}
 			// Guaranteed to be in the outputs map since this was in oldItems
 			oldItem = j.outputs[key]
 			if Equal(oldItem, *merged) {
@@ -245,6 +251,10 @@ func (j *nestedjoinmerge[T]) handleCollectionUpdate(e Event[Collection[T]]) {
 			// Recalculate the merged version of this key just to be sure. Again, calculateMerged is guaranteed to be non-nil
 			// since newCollectionValue is a part of j's collection of collections.
 			merged := j.calculateMerged(string(key))
+			if merged == nil {
+				// See above: the collection is gone already.
+				continue
+			}
 			j.outputs[key] = *merged
 			finalEvents = append(finalEvents, Event[T]{New: merged, Event: controllers.EventAdd})
 		}
@@ -332,7 +342,12 @@ func (j *nestedjoinmerge[T]) handleCollectionDelete(e Event[Collection[T]]) {
 				// This shouldn't happen; log it and fall back to the event's old Item
 				msg := "NestedJoinWithMergeCollection: No item found in outputs for key %s during collection delete, sending delete event with event old value"
 				j.log.Warnf(msg, keyString)
-				oldItem = *oldCollectionValue.GetKey(keyString)
+				old := oldCollectionValue.GetKey(keyString)
+				if old == nil {
+					// Gone from the deleted collection as well by now, and never sent: nothing to delete.
+					continue
+				}
+				oldItem = *old
 			}
 			delete(j.outputs, key)
 			if j.log.DebugEnabled() {
